@@ -25,14 +25,15 @@ const (
 
 // Prog is one loaded, type-checked and SSA-built configuration of /repo.
 type Prog struct {
-	Tags  string
-	Fset  *token.FileSet
-	Pkgs  []*packages.Package
-	SSA   *ssa.Program
-	Slog  *ssa.Package
-	Times *ssa.Package
-	Strs  *ssa.Package
+	Tags   string
+	Fset   *token.FileSet
+	Pkgs   []*packages.Package
+	SSA    *ssa.Program
+	Slog   *ssa.Package
+	Times  *ssa.Package
+	Strs   *ssa.Package
 	byPath map[string]*ssa.Package
+	canon  map[string]types.Object // canonical anchor key -> renamed object of this tree
 
 	cgCHA *callgraph.Graph
 	cgVTA *callgraph.Graph
@@ -89,6 +90,7 @@ func Load(tags string, overlay map[string][]byte) (*Prog, error) {
 			p.NFuncs++
 		}
 	}
+	resolveAliases(p)
 	return p, nil
 }
 
@@ -115,7 +117,13 @@ func (p *Prog) Func(pkg *ssa.Package, name string) *ssa.Function {
 	if pkg == nil {
 		return nil
 	}
-	return pkg.Func(name)
+	if fn := pkg.Func(name); fn != nil {
+		return fn
+	}
+	if o, ok := p.canon["func|"+pkgShort(pkg.Pkg)+"||"+name].(*types.Func); ok {
+		return p.SSA.FuncValue(o)
+	}
+	return nil
 }
 
 // Method returns method `name` of named type `typ` in pkg (pointer or value receiver).
@@ -125,11 +133,19 @@ func (p *Prog) Method(pkg *ssa.Package, typ, name string) *ssa.Function {
 	}
 	obj := pkg.Pkg.Scope().Lookup(typ)
 	if obj == nil {
+		obj = p.canon["type|"+pkgShort(pkg.Pkg)+"||"+typ]
+	}
+	if obj == nil {
 		return nil
 	}
 	tn, ok := obj.(*types.TypeName)
 	if !ok {
 		return nil
+	}
+	if o, ok := p.canon["method|"+pkgShort(pkg.Pkg)+"|"+typ+"|"+name].(*types.Func); ok {
+		if fn := p.SSA.FuncValue(o); fn != nil {
+			return fn
+		}
 	}
 	for _, t := range []types.Type{tn.Type(), types.NewPointer(tn.Type())} {
 		ms := p.SSA.MethodSets.MethodSet(t)
@@ -175,6 +191,9 @@ func (p *Prog) Const(pkg *ssa.Package, name string) (constant.Value, types.Type,
 	}
 	c, ok := pkg.Pkg.Scope().Lookup(name).(*types.Const)
 	if !ok {
+		c, ok = p.canon["const|"+pkgShort(pkg.Pkg)+"||"+name].(*types.Const)
+	}
+	if !ok {
 		return nil, nil, false
 	}
 	return c.Val(), c.Type(), true
@@ -196,6 +215,11 @@ func (p *Prog) Global(pkg *ssa.Package, name string) *ssa.Global {
 		return nil
 	}
 	g, _ := pkg.Members[name].(*ssa.Global)
+	if g == nil {
+		if o := p.canon["global|"+pkgShort(pkg.Pkg)+"||"+name]; o != nil {
+			g, _ = pkg.Members[nm(o)].(*ssa.Global)
+		}
+	}
 	return g
 }
 
@@ -205,6 +229,9 @@ func (p *Prog) NamedType(pkg *ssa.Package, name string) *types.Named {
 		return nil
 	}
 	obj, _ := pkg.Pkg.Scope().Lookup(name).(*types.TypeName)
+	if obj == nil {
+		obj, _ = p.canon["type|"+pkgShort(pkg.Pkg)+"||"+name].(*types.TypeName)
+	}
 	if obj == nil {
 		return nil
 	}
